@@ -2,8 +2,6 @@
 
 from __future__ import annotations
 
-import math
-
 import numpy as np
 
 from gridrv import instrument
@@ -27,10 +25,13 @@ RULE = (
     "routine == longdouble Chebyshev differentiation of the IMPLEMENTED harmonics in theta (everywhere) and phi (off the "
     "poles) and d/dtheta == -m Y_l,-m of the oracle; solid harmonics == sqrt(4pi/(2l+1)) r^l ref_Y and (z,x,y) for l=1; "
     "convert_cart_to_sph: ranges, r, round trip through the parametrisation, centre -> (0,0,0). One case = one "
-    "(family, lmax, angle class, repetition k): lmax in {0..12,20,35,60,100,150,200} (thorough also 16,25,45,80,125,151,250 and values at 400; 151 is where float64 intermediates would first overflow); angle classes random, "
+    "(family, lmax, angle class, repetition k): lmax in {0..12,20,35,60,100,150,200} (thorough also 16,25,45,80,125,151,250 "
+    "and values at 400; 151 is where float64 intermediates would first overflow); angle classes random, "
     "wide (azimuth in [-20,20], polar + 2 pi k), poles (exact and within 1e-9/1e-12), equator, lattice (multiples of pi/4, "
     "pi/6), nearpole (1e-3..1e-9), reflected polar angles (observed only). cart2sph: centre None/origin/random/far/list x "
-    "point classes random/axis/equator/centre/nearpole/scales; library-callers: AtomGrid.radial_component_splines and Grid.moments('pure') drive the monitored functions through their other bindings on the library's own grid angles. A case is non-trivial when at least one decided oracle "
+    "point classes random/axis/equator/centre/nearpole/scales; library-callers: AtomGrid.radial_component_splines and "
+    "Grid.moments('pure') drive the monitored functions through their other bindings on the library's own grid angles. "
+    "A case is non-trivial when at least one decided oracle "
     "evaluation ran on it; reflected-angle cases are marked trivial."
 )
 ASSUMPTIONS = [
